@@ -1871,6 +1871,9 @@ func (s *Sim) doDumpLoad(o *Op) {
 	s.everTgt = map[int]bool{}
 	s.DeadTargets = nil
 	s.label("dump+reset+load")
+	if o.V > 0 {
+		s.label("dump sent through encoding/json")
+	}
 }
 
 // checkRelQueries: for every relation component r and every target t that is in use, was in
@@ -2195,4 +2198,7 @@ func (s *Sim) doDumpRestore(o *Op) {
 		s.F = nil
 	}
 	s.label("dump restored after further history")
+	if o.V > 0 {
+		s.label("dump sent through encoding/json")
+	}
 }
